@@ -166,8 +166,24 @@ async fn one_config(ctx: &Ctx, out: &mut Outcome, ci: usize, l1: usize, l2: Opti
                     let a = rng.usize(n);
                     let b = a + 1 + rng.usize(n - a);
                     stats.lock().1 += 1;
-                    if rng.chance(1, 2) {
+                    let pick = rng.below(3);
+                    if pick == 0 {
                         (store.get_range(&loc, a..b).await.map_err(|e| e.to_string()), "get_range", a, b)
+                    } else if pick == 1 {
+                        // several ranges in one call; the one judged below is [a, b), the others are compared here
+                        let c = rng.usize(n);
+                        let d = c + 1 + rng.usize(n - c);
+                        let rs = vec![c..d, a..b, 0..1.min(n)];
+                        match store.get_ranges(&loc, &rs).await {
+                            Ok(v) if v.len() == 3 => {
+                                if v[0].as_ref() != &want[c..d] || v[2].as_ref() != &want[0..1.min(n)] {
+                                    violations.lock().push(("C16/wrong-bytes".into(), format!("get_ranges of {} {:?} returned bytes that differ from the backing store", key, rs), json!({"key": key, "op": "get_ranges", "ranges": [[c, d], [a, b]], "l1": l1, "l2": l2})));
+                                }
+                                (Ok(v[1].clone()), "get_ranges", a, b)
+                            }
+                            Ok(v) => (Err(format!("get_ranges returned {} results for 3 ranges", v.len())), "get_ranges", a, b),
+                            Err(e) => (Err(e.to_string()), "get_ranges", a, b),
+                        }
                     } else {
                         let o = GetOptions { range: Some(GetRange::Bounded(a..b)), ..Default::default() };
                         let r = match store.get_opts(&loc, o).await {
